@@ -437,4 +437,54 @@ theorem splitEvery_lengths {α : Type} (s q : Nat) (hs : 0 < s) (x : List α) (h
       _ ≤ q * s := Nat.mul_le_mul_right _ ha
   omega
 
+/-! ## the validation of `real_basis_derivative_with_zero_imag` on every shard -/
+
+theorem mapM_eq_some_map {α β : Type} (f : α → Option β) (g : α → β) :
+    ∀ (l : List α), (∀ x ∈ l, f x = some (g x)) → l.mapM f = some (l.map g)
+  | [], _ => rfl
+  | a :: t, h => by
+    rw [List.mapM_cons, h a (by simp), mapM_eq_some_map f g t (fun x hx => h x (by simp [hx]))]
+    rfl
+
+theorem mapM_eq_none {α β : Type} (f : α → Option β) :
+    ∀ (l : List α), (∃ x ∈ l, f x = none) → l.mapM f = none
+  | [], h => by obtain ⟨x, hx, _⟩ := h; simp at hx
+  | a :: t, h => by
+    rw [List.mapM_cons]
+    cases hfa : f a with
+    | none => rfl
+    | some b =>
+      obtain ⟨x, hx, hfx⟩ := h
+      rcases List.mem_cons.1 hx with rfl | hx'
+      · rw [hfa] at hfx; cases hfx
+      · rw [mapM_eq_none f t ⟨x, hx', hfx⟩]; rfl
+
+section checked
+variable {K : Type} [Field K]
+
+theorem shardedDerivativeChecked_even (shards : List (List (List K))) (w : Nat)
+    (h : ∀ u ∈ shards, u.length % 2 = 0) :
+    shardedDerivativeChecked shards w = some (shardedDerivative shards w) := by
+  unfold shardedDerivativeChecked shardedDerivative
+  apply mapM_eq_some_map
+  intro ua hua
+  have := h ua.1 (List.fst_mem_of_mem_zipIdx hua)
+  unfold zeroImagDerivativeChecked
+  rw [if_neg (by omega)]
+
+theorem shardedDerivativeChecked_odd (shards : List (List (List K))) (w : Nat)
+    (h : ∃ u ∈ shards, u.length % 2 = 1) :
+    shardedDerivativeChecked shards w = none := by
+  unfold shardedDerivativeChecked
+  apply mapM_eq_none
+  obtain ⟨u, hu, hodd⟩ := h
+  obtain ⟨i, hi, rfl⟩ := List.getElem_of_mem hu
+  refine ⟨(shards[i], i), ?_, ?_⟩
+  · rw [List.mem_zipIdx_iff_getElem?]
+    simp [hi]
+  · unfold zeroImagDerivativeChecked
+    rw [if_pos hodd]
+
+end checked
+
 end Dino.Shard
